@@ -137,6 +137,22 @@ def _map_stmt(s, fe, fd=None):
     return s
 
 
+def _returns(s):
+    if s is None:
+        return
+    k = s['k']
+    if k == 'return':
+        yield s
+    elif k == 'block':
+        for c in s['body']:
+            yield from _returns(c)
+    elif k == 'if':
+        yield from _returns(s['then'])
+        yield from _returns(s['els'])
+    elif k in ('while', 'do', 'for', 'switch', 'case', 'default'):
+        yield from _returns(s.get('body'))
+
+
 def _has_return(s):
     if s is None:
         return False
@@ -225,10 +241,12 @@ def _tailify(stmts, on_return):
     return out
 
 
-def _instantiate(helper, args, line):
-    """(prologue statements, body statements) of one instance of the helper with its parameters bound"""
+def _instantiate(helper, args, line, in_place=()):
+    """(prologue statements, body statements) of one instance of the helper with its parameters bound.  in_place: parameter indices
+    that the helper updates and whose final value the caller stores back into the very variable it passed (`pos = H(out, pos, ...)`
+    with every return of H being `return pos`): the caller's variable takes the parameter's place."""
     tag = _fresh()
-    assigned = _assigned_params(helper)
+    assigned = _assigned_params(helper) - set(in_place)
     subst, prologue = {}, []
     for i, (pn, pt) in enumerate(helper['params']):
         a = args[i] if i < len(args) else ('int', 0)
@@ -580,8 +598,17 @@ def splice_new_helpers(functions_of_unit, force=None, globals_of_unit=None):
         if target is None or ir.callee_name(call) not in new or depth > 3:
             return [s]
         h = new[ir.callee_name(call)]
+        in_place = ()
+        if target[0] == 'assign' and ir.top_nocast(target[1])[0] in ('param', 'local'):
+            tv = ir.top_nocast(target[1])
+            idxs = [i for i, a in enumerate(call[2]) if ir.top_nocast(a)[:3] == tv[:3]]
+            if len(idxs) == 1 and idxs[0] in _assigned_params(h) and not any(x[0] == 'un' and x[1] == '&' and ir.top_nocast(x[2]) == ('param', h['params'][idxs[0]][0], idxs[0])
+                                                                             for e in _all_exprs(h['body']) for x in ir.walk(e)):
+                rets = [r for r in _returns(h['body'])]
+                if rets and all(r['expr'] is not None and ir.top_nocast(r['expr'])[0] == 'param' and ir.top_nocast(r['expr'])[2] == idxs[0] for r in rets):
+                    in_place = (idxs[0],)
         try:
-            prologue, body = _instantiate(h, list(call[2]), line)
+            prologue, body = _instantiate(h, list(call[2]), line, in_place)
             if target[0] == 'return':
                 inner = body['body'] if body['k'] == 'block' else [body]
                 res = [dict(k='block', line=line, body=prologue + inner)]
